@@ -41,3 +41,12 @@ Theorem C13_restore_invariants_partial : forall t li cs c p,
   (cs_voters_outgoing cs = [] -> c_outgoing c = [] /\ c_learners_next c = [] /\ c_auto_leave c = false).
 Proof. exact restore_ok. Qed.
 Print Assumptions C13_restore_invariants_partial.
+
+(* Restore, outgoing half of the round-trip as a theorem: restoring a joint ConfState into a
+   fresh tracker yields exactly its VotersOutgoing as the outgoing voter set (id 0 is skipped
+   by the Changer, as in the code). *)
+Theorem C13_restore_outgoing_roundtrip : forall mi mb li cs c p,
+  cc_restore (make_tracker mi mb) li cs = inl (c, p) -> cs_voters_outgoing cs <> [] ->
+  forall x, In x (c_outgoing c) <-> In x (cs_voters_outgoing cs) /\ x <> 0.
+Proof. exact restore_outgoing_fresh. Qed.
+Print Assumptions C13_restore_outgoing_roundtrip.
